@@ -323,7 +323,7 @@ def specStep (s : SpecSt) (l : String) : SpecSt × String :=
             -- a re-used (peer,id) replaces the old tunnel of that leg; it is a bare-id collision too
             let live := s.live.filter (fun u => !(legUp k p i u))
             -- an exit-side UDP association under the same bare id swallows the relayed datagrams (known finding)
-            let ux := k == "udp" && s.uxlive.any (fun u => u.2 == i)
+            let ux := k == "udp" && s.uxlive.any (fun u => u.2 == i || u.2 == j)
             ({ s with live := t :: live, collided := s.collided || clash k s.live t || ux,
                       relayCollided := s.relayCollided || clash k s.live t }, "ok")
           else (s, "fail " ++ tag s "misrouted")
